@@ -4,6 +4,20 @@ from props import solve_common
 PROP_FILE = "Prop_C02.v"
 
 
+# minimised past failures (run first)
+LIST_CORPUS = [
+    # 7b4d231: the sum of a still empty random-size list taken for the constant 0 by bounds inference
+    {"enums": {}, "root_cls": "K0",
+     "classes": [{"name": "K0", "fields": [{"name": "f0", "kind": "scalar", "w": 2, "sg": False, "rand": False, "init": 1},
+                                           {"name": "l0", "kind": "list", "elem": {"kind": "scalar", "w": 2, "sg": False}, "rand": True, "randsz": True, "size": 0}],
+                  "blocks": [{"name": "c0", "stmts": [["expr", ["in", ["size", ["l0"]], [[["lit", 0], ["lit", 2]]]]],
+                                                      ["expr", ["bin", "Eq", ["sum", ["l0"]], ["f", ["f0"]]]],
+                                                      ["expr", ["bin", "Eq", ["f", ["f0"]], ["size", ["l0"]]]]]}],
+                  "pre_randomize": [], "post_randomize": []}],
+     "ops": [{"op": "new", "var": "o", "cls": "K0"}, {"op": "randomize", "var": "o", "inline": None}, {"op": "randomize", "var": "o", "inline": None}]},
+]
+
+
 def list_stream(ctx):
     """the outcome on list scenarios: fixed-size lists by enumeration of every assignment, random-size lists by enumeration for
     every admissible size (a call fails exactly when no size has a solution); half of the scenarios have a random-size list,
@@ -14,7 +28,7 @@ def list_stream(ctx):
     from props import c04
     rnd = random.Random("C02-lists-%d" % ctx.seed)
     n = 70 if ctx.quick() else 1500
-    scs = [listgen.ListGen(random.Random(rnd.random()), randsz=(i % 2 == 1)).scenario() for i in range(n)]
+    scs = LIST_CORPUS + [listgen.ListGen(random.Random(rnd.random()), randsz=(i % 2 == 1)).scenario() for i in range(n)]
     obs, results, crashed = c04.evaluate(ctx, scs, "c02l")       # (reports SolveFailure on satisfiable random-size systems itself)
     ev = 0
     outcomes = {}
